@@ -1,0 +1,28 @@
+//go:build verif
+
+// Contracts for the acv verifier (/verif). Comment-only file: no executable code.
+
+package storage
+
+// Insert-if-absent store: Save never overwrites (two different originals cannot end up under one token id),
+// Get returns exactly what Save stored, and every access to the maps happens while holding the mutex.
+//@ func (m *MemoryTokenStorage) Save(id []byte, context common.TokenContext, data []byte) (err error)
+//@   props C10 C17
+//@   ensures never-overwrites: old(haskey(m.data[ret(hex.EncodeToString#1)[0]], ret(hex.EncodeToString#0)[0])) ==> err == common.ErrTokenExists
+//@   ensures existing-kept: err != nil ==> old(m.data[ret(hex.EncodeToString#1)[0]][ret(hex.EncodeToString#0)[0]]) == m.data[ret(hex.EncodeToString#1)[0]][ret(hex.EncodeToString#0)[0]] || !old(haskey(m.data, ret(hex.EncodeToString#1)[0]))
+//@   ensures stored: err == nil ==> haskey(m.data[ret(hex.EncodeToString#1)[0]], ret(hex.EncodeToString#0)[0]) && sameslice(m.data[ret(hex.EncodeToString#1)[0]][ret(hex.EncodeToString#0)[0]].data, data)
+//@   ensures unlocked-at-exit: called(RWMutex.Unlock)
+//@   at call hex.EncodeToString#0 : assert called(RWMutex.Lock) && sameslice(arg[0], id)
+//@   at call common.AggregateTokenContextToBytes : assert called(RWMutex.Lock) && arg[0] == context
+//@   at call hex.EncodeToString#1 : assert sameslice(arg[0], ret(common.AggregateTokenContextToBytes)[0])
+//@   precedes RWMutex.Lock RWMutex.Unlock
+
+//@ func (m *MemoryTokenStorage) Get(id []byte, context common.TokenContext) (out []byte, err error)
+//@   props C10 C17
+//@   ensures returns-stored: err == nil ==> haskey(m.data[ret(hex.EncodeToString#1)[0]], ret(hex.EncodeToString#0)[0]) && sameslice(out, m.data[ret(hex.EncodeToString#1)[0]][ret(hex.EncodeToString#0)[0]].data)
+//@   ensures miss: !haskey(m.data[ret(hex.EncodeToString#1)[0]], ret(hex.EncodeToString#0)[0]) ==> err == common.ErrTokenNotFound
+//@   ensures unlocked-at-exit: called(RWMutex.Unlock)
+//@   at call hex.EncodeToString#0 : assert called(RWMutex.Lock) && sameslice(arg[0], id)
+//@   at call common.AggregateTokenContextToBytes : assert called(RWMutex.Lock) && arg[0] == context
+//@   at call hex.EncodeToString#1 : assert sameslice(arg[0], ret(common.AggregateTokenContextToBytes)[0])
+//@   precedes RWMutex.Lock RWMutex.Unlock
